@@ -173,30 +173,60 @@ func c08OptionPlumbing(ctx *core.Ctx, cc *CC) {
 		return
 	}
 	n := 0
-	ssax.Instrs(entry, func(in ssa.Instruction) {
-		st, ok := in.(*ssa.Store)
-		if !ok {
-			return
-		}
-		g, ok := st.Addr.(*ssa.Global)
-		if !ok || g.Pkg == nil || g.Pkg.Pkg.Name() != "globals" || g.Name() != "TopicDelimiter" {
-			return
-		}
-		n++
-		every := true
-		for _, b := range entry.Blocks {
+	domAll := func(fn *ssa.Function, in ssa.Instruction) bool {
+		for _, b := range fn.Blocks {
 			if len(b.Instrs) == 0 {
 				continue
 			}
 			if _, isRet := b.Instrs[len(b.Instrs)-1].(*ssa.Return); isRet && b.Comment != "recover" {
 				if !(in.Block() == b || in.Block().Dominates(b)) {
-					every = false
+					return false
 				}
 			}
 		}
-		ctx.Check(every, "C08.R10", "compiler.Compile › globals.TopicDelimiter is assigned on every path", cc.IPos(in), "the store dominates every return",
+		return true
+	}
+	// the store may sit in a helper of Compile (setGlobals(options)): then the helper
+	// stores on all its paths and Compile calls it on all of its own
+	var scan func(fn *ssa.Function, depth int) (found bool, every bool, at ssa.Instruction)
+	scan = func(fn *ssa.Function, depth int) (bool, bool, ssa.Instruction) {
+		found, every := false, false
+		var at ssa.Instruction
+		ssax.Instrs(fn, func(in ssa.Instruction) {
+			if st, ok := in.(*ssa.Store); ok {
+				if g, ok := st.Addr.(*ssa.Global); ok && g.Pkg != nil && g.Pkg.Pkg.Name() == "globals" && g.Name() == "TopicDelimiter" {
+					found, at = true, in
+					if domAll(fn, in) {
+						every = true
+					}
+				}
+			}
+		})
+		if found || depth == 0 {
+			return found, every, at
+		}
+		for _, c := range ssax.Calls(fn) {
+			h := c.Static
+			if h == nil || h.Pkg != fn.Pkg || len(h.Blocks) == 0 || h == fn {
+				continue
+			}
+			if _, isGo := c.Instr.(*ssa.Go); isGo {
+				continue
+			}
+			if _, isDefer := c.Instr.(*ssa.Defer); isDefer {
+				continue
+			}
+			if f2, e2, a2 := scan(h, depth-1); f2 {
+				return true, e2 && domAll(fn, c.Instr.(ssa.Instruction)), a2
+			}
+		}
+		return false, false, nil
+	}
+	if found, every, at := scan(entry, 2); found {
+		n++
+		ctx.Check(every, "C08.R10", "compiler.Compile › globals.TopicDelimiter is assigned on every path", cc.IPos(at), "the store dominates every return",
 			"the delimiter option is copied only under a condition (e.g. when it is not empty): for the other values the generators read the default '.', so the generated topics are not joined by the delimiter the user asked for")
-	})
+	}
 	if n == 0 {
 		ctx.Violate("C08.R10", "compiler.Compile › globals.TopicDelimiter is assigned on every path", cc.FPos(entry), "Compile never assigns the delimiter option to globals.TopicDelimiter")
 	}
